@@ -8,9 +8,10 @@ PID = "C12"
 MODULES = ["Prelude", "C12_Model", "C12_Spec", "C12_Check"]
 PROPS_MODULE = "C12_Properties"
 THEOREMS = ["C12_answer_provenance", "C12_source_meaning", "C12_unavailable_denies", "C12_no_shared_entry",
-            "C12_own_cluster", "C12_other_clusters_not_asked", "C12_overlap_commutes", "C12_history"]
+            "C12_own_cluster", "C12_other_clusters_not_asked", "C12_overlap_commutes",
+            "C12_dispatch_cluster_is_review_cluster", "C12_same_cluster_history", "C12_history"]
 EVAL = "C12_Check.eval"
-CLAUSES = ["agree", "own_cluster", "unavailable_denies", "fresh_answer", "cached_provenance"]
+CLAUSES = ["agree", "own_cluster", "unavailable_denies", "fresh_answer", "cached_provenance", "same_cluster"]
 RULE = ("distinct (configuration, scripts, op list) histories in which the SAME token or the SAME user+attributes is "
         "presented to hosts of at least two different clusters, at least one request is answered without any review "
         "(cache hit) and at least one by a fresh review")
@@ -33,6 +34,8 @@ ASSUMPTIONS = [
     "are modelled on ASCII); audiences are not used",
     "moving an alias from one cluster to another while its per-host cache is alive is outside the property's quantifier "
     "(cluster_of is static in the model); noted, not checked",
+    "the TLS server name (SNI) of a connection is not an input of the model: a chain request is dispatched to, and "
+    "reviewed by, cluster_of(Host); chain requests use lower-case, non-IP Host values (the factory lower-cases and strips the port)",
     "a server (endpoint URL, with its upstream identity) is in the server list of at most one cluster at a time; "
     "re-homing = removal from one cluster followed by addition to another",
     "a cluster whose ClusterInfo is stopped is replaced by a new ClusterInfo before the next request (ORestart); requests "
@@ -119,6 +122,11 @@ def disabled(c, i, b=True):
 
 def healthy_srv(s, b=True):
     return {"op": "healthy", "srv": s, "b": b}
+
+
+def chain(h, tok, now, imp=None, sni=None, port=False):
+    """a request through the proxy handler chain; sni = TLS server name of its connection (None: no TLS)"""
+    return {"op": "chain", "host": h, "tok": tok, "imp": imp, "sni": sni, "port": port, "now": now}
 
 
 def addep(c, s):
@@ -264,6 +272,20 @@ def corpus():
                            addep("c1", "c1s0"), addep("c1", "c1s0"), addep("c2", "c1s1"), removeep("c2", "c1s1"),  # no-ops: owned elsewhere
                            authn("c1", "t8", 7), healthy_srv("c1s0"), healthy("c1", 1, False), authn("c1", "t9", 8),
                            addep("c2", "spare"), healthy_srv("spare"), authn("c2", "t9", 9), authz("c2", ATTRS[9], 9)]})
+    # 11. requests through the PROXY CHAIN (ExtraRequestInfo -> WithUpstreamInfo -> bearer authentication -> impersonation
+    #     filter -> dispatcher): the cluster whose reviews decide the request must be the cluster it is dispatched to,
+    #     whatever the TLS server name of the connection says (same / another cluster / alias / unknown / empty / no TLS)
+    for ttls in (dict(sttl=0, fttl=0, attl=0, dttl=0), dict(sttl=1000, fttl=1000, attl=1000, dttl=1000)):
+        cs.append({"cfg": base_cfg(reg, neps, **ttls), "via": "request",
+                   "tscript": {"c1": [tauth("c1")] * 12, "c2": [{"k": "unauth"}] * 3 + [tauth("c2", "root")] * 9},
+                   "sscript": {"c1": [sstatus("c1", True)] * 12, "c2": [sstatus("c2", False, True)] * 12},
+                   "ops": up + [chain("c1", "t", 0, sni="c1"), chain("c1", "t", 1, sni="c2"), chain("c1", "t", 2, "admin", sni="c2"),
+                                chain("c1", "t", 3, "admin", sni="c1", port=True), chain("alias1", "t", 4, "admin", sni="c2"),
+                                chain("c2", "t", 5, sni="c1"), chain("c2", "t", 6, "admin", sni="c1"), chain("c2", "t", 7, sni="alias1"),
+                                chain("c2", "t", 8, sni=None), chain("c2", "t", 9, "admin", sni=""), chain("c2", "t", 10, "admin", sni="lb.example"),
+                                chain("nowhere", "t", 11, sni="c1"), chain("nowhere", "t", 12, "admin", sni="c2"),
+                                disabled("c2", 0), chain("c2", "t2", 13, sni="c1"), chain("c1", "t2", 14, "admin", sni="c2"),
+                                authn("c1", "t", 15), authz("c2", IMP("root@c2"), 15)]})
     return cs
 
 
@@ -324,6 +346,7 @@ def gen_case(rng, tier):
             if rng.chance(9, 10):
                 ops.append(healthy(c, i))
     with_overlap = rng.chance(1, 8)
+    with_chain = rng.chance(1, 5)
     with_lists = rng.chance(1, 4)
     lists = {c: [srv(c, i) for i in range(neps[c])] for c in cls}
     free = ["spare0", "spare1"]
@@ -347,6 +370,15 @@ def gen_case(rng, tier):
             if h is not None and h == h.lower() and h != "" and rng.chance(1, 3):
                 hvia = rng.choice(["factory", "factoryport"])
             h2 = None
+            if with_chain and rng.chance(1, 2):
+                lows = [x for x in hosts if x == x.lower()]
+                hc = rng.choice(lows + ["nowhere"]) if lows else "nowhere"
+                others = [x for x in lows if _cluster_of(cfg, x) != _cluster_of(cfg, hc)]
+                r2 = rng.below(10)
+                sni = (hc if r2 < 2 else rng.choice(others) if r2 < 6 and others else rng.choice(lows) if r2 < 7 and lows
+                       else "lb.example" if r2 < 8 else "" if r2 < 9 else None)
+                ops.append(chain(hc, rng.choice(toks), now, rng.choice([None, "admin", "admin"]), sni, rng.chance(1, 3)))
+                continue
             if with_overlap and rng.chance(1, 4):
                 # a second host of ANOTHER cluster (or of none) for an overlapping request with the same key
                 others = [x for x in hosts + ["nowhere"]
@@ -469,6 +501,8 @@ def coq_op(o, names=None):
         return "(OHealthy %s %s)" % (cstr(o["srv"]), cbool(o["b"]))
     if k == "disabled":
         return "(ODisabled %s %s)" % (cstr(o["srv"]), cbool(o["b"]))
+    if k == "chain":
+        return "(Chain %s %s %s %s)" % (cstr(o["host"]), cstr(o["tok"]), copt(o.get("imp"), cstr), cZ(o["now"]))
     if k == "addep":
         return "(OAddEp %s %s)" % (cstr(o["c"]), cstr(o["srv"]))
     if k == "removeep":
@@ -554,6 +588,11 @@ def flat(case, steps):
                 oa, ob = split_overlap(o)
                 yield oa, s["a"]
                 yield ob, s["b"]
+        elif o["op"] == "chain":
+            if s.get("t"):
+                yield authn(o["host"], o["tok"], o["now"]), s["t"]
+            if s.get("z") and s.get("t") and s["t"].get("user"):
+                yield authz(o["host"], IMP(s["t"]["user"][0], o["imp"], ("system:authenticated",)), o["now"]), s["z"]
         else:
             yield o, s
 
@@ -585,6 +624,13 @@ def coq_case(case, obs):
                 # the second request did not complete on its own while the first one's review was in flight:
                 # never so in the model (requests of different clusters share nothing) -> visible disagreement
                 items.append(BAD_STEP)
+        elif o["op"] == "chain":
+            if s.get("kind") != "C":
+                items.append(BAD_STEP)
+                continue
+            t = "(Some %s)" % coq_out(s["t"]) if s.get("t") else "None"
+            z = "(Some %s)" % coq_out(s["z"]) if s.get("z") else "None"
+            items.append("(%s, RC %s %s %s)" % (coq_op(o), t, z, copt(s.get("dispatch"), cstr)))
         else:
             items.append("(One %s, R1 %s)" % (coq_op(o, names), coq_out(s)))
     return "(%sCase %s %s %s %s)" % (lets, cfg, ts, ss, clist(items))
@@ -633,6 +679,12 @@ def stats(case, obs):
     for o, s in zip(case["ops"], steps):
         if o["op"] in ("overlapt", "overlaps"):
             labs.append("op:%s%s" % (o["op"], ":blocked" if s.get("blocked") else ""))
+        if o["op"] == "chain":
+            sni, h = o.get("sni"), o["host"]
+            rel = ("none" if sni is None else "empty" if sni == "" else "host" if sni == h else
+                   "unknown" if _cluster_of(case["cfg"], sni) is None else
+                   "same-cluster" if _cluster_of(case["cfg"], sni) == _cluster_of(case["cfg"], h) else "other-cluster")
+            labs.append("chain:sni=%s:%s" % (rel, "dispatched" if s.get("dispatch") is not None else "code%s" % s.get("code")))
     for o, s in flat(case, steps):
         if o["op"] in ("authn", "authz"):
             if s["calls"]:
